@@ -301,4 +301,12 @@ func init() {
 			{Name: "sched", Pkg: "c20", Run: "^TestC20Scheduler$", QuickChecks: 8000, ThoroughChecks: 80000, ThoroughShards: 16, CaseFile: true, CrashOracle: "no-crash"},
 		},
 	}
+
+	registry["C10"] = &Check{
+		Rule: "real threads, real clock, -race: per round 4-32 goroutines x 150-400 operations drawn (from the round's seed) from System.ActorOf, Tell, Ask + Result/Wait from two goroutines, Kill (poison or not), FindActor, Ref.Clone/String, messages that make actors spawn 1-3 children / panic / kill themselves, event-stream Publish / Subscribe / Unsubscribe from outside and from actors; the system strategy is one of Restart / Stop / Resume / graceful variants, one-for-one or one-for-all. Oracle: the process survives (worker death = verdict), zero race-detector reports (each reduced to the pair of vivid functions), own replies only, and at quiescence (registry unchanged over 5 polls) the tree is consistent: registry == set reachable from the root through child tables, every child's parent registered, nobody registered while terminated / terminating / paused; Stop succeeds. Non-trivial = a round with >= 2 goroutines and >= 1 kill overlapping spawns. Distinct = hash of (seed, round).",
+		Assumptions: []string{"dynamic race detection on sampled schedules: it reports only races that occur in an executed schedule", "quiescence is detected by polling the registry; a round that does not settle in 30 s is not judged for tree consistency (noted in evidence)"},
+		Units: []Unit{
+			{Name: "stress", Pkg: "c10", Run: "^TestC10Stress$", Race: true, QuickShards: 4, ThoroughShards: 8, CaseFile: true, CrashOracle: "no-crash", Inject: actorOverlay, QuickTimeout: 15 * time.Minute, ThoroughTimeout: 60 * time.Minute},
+		},
+	}
 }
